@@ -8,7 +8,7 @@ import z3
 from . import sym, spec
 from .values import *
 from .interp import Raise, PathAbort, Unsupported, LazyOpt
-from .builtin_contracts import SDict, NumBase
+from .builtin_contracts import SDict, NumBase, ViewBase
 
 J_NESTED = 2          # nested n-ary arity bound (refined Add/Multiply children): 0..J
 
@@ -234,12 +234,13 @@ class ContractTable:
         I.ghost.setdefault("points", {})[spec.point_name(I, pt)] = pt
         return pt
 
-    def _eval_outcome(self, I, o, pt, who):
-        """The three outcomes of an evaluation-like call: returns (D and S), DomainError
-        (not D), CoordinateMissing (not S)."""
+    def _eval_outcome(self, I, o, pt, who, returns_S=True):
+        """The three outcomes of an evaluation-like call: returns (D, and S for evaluation:
+        a derivative query need not look up a coordinate, e.g. of a bare Variable),
+        DomainError (not D), CoordinateMissing (not S)."""
         d = spec.den(I, o, pt)
         S = spec.supplies(I, o, pt)
-        k = I.path.choose([z3.And(d.D, S), z3.Not(d.D), z3.Not(S)], f"{who}({o.name})")
+        k = I.path.choose([z3.And(d.D, S) if returns_S else d.D, z3.Not(d.D), z3.Not(S)], f"{who}({o.name})")
         self.after_eval(I, o, pt)
         if k == 1:
             raise Raise(I.instantiate(self.prog.classes["DomainError"], ["(contract)"], {}), f"contract:{who}({o.name})")
@@ -260,7 +261,7 @@ class ContractTable:
     def c_numeric_partial(self, I, o, args, kwargs):
         x, pt = args[0], self._point(I, args[1])
         self.require_coherent(I, o, pt, "_numeric_partial")
-        d = self._eval_outcome(I, o, pt, "_numeric_partial")
+        d = self._eval_outcome(I, o, pt, "_numeric_partial", returns_S=False)
         k = I.bi.key_term(x)
         return SNum(d.dV(k), z3.Bool(I.path.fresh_name(f"{o.name}.partial_is_int")))
 
@@ -268,18 +269,15 @@ class ContractTable:
         acc, m, pt = args[0], args[1], self._point(I, args[2])
         self.require_coherent(I, o, pt, "_compute_numeric_partials")
         old = acc.fields["_numeric_partials"]
-        names = I.ghost.get("ambient_names", [])
-        old_views = [acc_view(I, old, k) for k in names]
         # on a raising outcome the accumulator may hold partial contributions: havoc
-        present = z3.Const(I.path.fresh_name(f"acc.present<{o.name}>"), sym.NameSet)
-        vals = z3.Const(I.path.fresh_name(f"acc.vals<{o.name}>"), z3.ArraySort(sym.Name, sym.R))
-        new = SDict(base=NumBase(present, vals))
-        acc.fields["_numeric_partials"] = new
+        hv = z3.Function(I.path.fresh_name(f"acc.havoc<{o.name}>"), sym.Name, sym.R)
+        acc.fields["_numeric_partials"] = SDict(base=ViewBase(lambda k: hv(k), f"havoc<{o.name}>"))
         I.heap_log.append(("mutate-acc", acc, None, I.where()))
-        d = self._eval_outcome(I, o, pt, "_compute_numeric_partials")
+        d = self._eval_outcome(I, o, pt, "_compute_numeric_partials", returns_S=False)
         mt = real_term(m)
-        for k, ov in zip(names, old_views):
-            I.path.assume(acc_view(I, new, k) == ov + mt * d.dV(k))
+        # returns: for every name k, acc'.get(k, 0) = acc.get(k, 0) + m * dV(k)
+        acc.fields["_numeric_partials"] = SDict(base=ViewBase(
+            lambda k: z3.simplify(acc_view(I, old, k) + mt * d.dV(k)), f"acc<{o.name}>"))
         return None
 
     def c_at(self, I, o, args, kwargs):
@@ -372,7 +370,9 @@ class ContractTable:
 def acc_view(I, d, k):
     """`d.get(k, 0)` as a pure term for a Name->number dict (entries over an optional base)."""
     t = z3.RealVal(0)
-    if isinstance(d.base, NumBase):
+    if isinstance(d.base, ViewBase):
+        t = d.base.view_fn(k)
+    elif isinstance(d.base, NumBase):
         t = z3.If(z3.Select(d.base.present, k), z3.Select(d.base.vals, k), z3.RealVal(0))
     elif d.base is not None:
         raise Unsupported("acc_view over non-numeric base")
